@@ -766,10 +766,11 @@ func (w *L1World) fabricate(b *wBridge, n int) []Withdrawal {
 		}
 		wd := Withdrawal{BridgeID: b.id, Seq: b.nextL2, From: fmt.Sprintf("l2user%d", w.rng.Intn(5)), To: w.anyUser().String(), Denom: denom, Amount: uint64(1 + w.rng.Intn(3000))}
 		if w.rng.Chance(6) {
-			// the named recipient is whoever the L2 user named: a module account on the bank's block list, the ophost module,
-			// or this bridge's own escrow are paid like anybody else (and nobody else is)
+			// the named recipient is whoever the L2 user named: a module account on the bank's block list or the ophost module
+			// is paid like anybody else (and nobody else is). Escrow addresses are not drawn here: a leaf re-committed under
+			// another bridge would then legitimately pay into a sibling's escrow, which the isolation clause reads as interference
 			wd.To = mon.Pick(w.rng, []sdk.AccAddress{authtypes.NewModuleAddress(authtypes.FeeCollectorName), authtypes.NewModuleAddress("distribution"),
-				authtypes.NewModuleAddress("gov"), authtypes.NewModuleAddress(ophosttypes.ModuleName), refBridgeAddr(b.id)}).String()
+				authtypes.NewModuleAddress("gov"), authtypes.NewModuleAddress(ophosttypes.ModuleName)}).String()
 			w.feat["module_recipient"]++
 		}
 		b.nextL2++
